@@ -104,7 +104,7 @@ def stsDigest (t : IntTy) (a lo hi : Int) : String := digestRange lo hi (stLine 
 inductive Ty where
   | opt | eith | var | tup | arr | recd | sti | vec2 | vec3 | dim2 | mat22 | box2 | sph2 | bf3 | earr
   | grid | tree | rv | ref | sp | recu
-  | vec1 | vec4 | dim3 | mat23 | box3 | sph3 | grid1 | grid3 | unit | itr
+  | vec1 | vec4 | dim3 | mat23 | box3 | sph3 | grid1 | grid3 | unit | itr | bf9
   deriving DecidableEq, Repr
 
 def tyName : String → Option Ty
@@ -114,7 +114,7 @@ def tyName : String → Option Ty
   | "grid" => some .grid | "tree" => some .tree | "rv" => some .rv | "ref" => some .ref | "sp" => some .sp
   | "recu" => some .recu
   | "vec1" => some .vec1 | "vec4" => some .vec4 | "dim3" => some .dim3 | "mat23" => some .mat23 | "box3" => some .box3
-  | "sph3" => some .sph3 | "grid1" => some .grid1 | "grid3" => some .grid3 | "unit" => some .unit | "itr" => some .itr
+  | "sph3" => some .sph3 | "grid1" => some .grid1 | "grid3" => some .grid3 | "unit" => some .unit | "itr" => some .itr | "bf9" => some .bf9
   | _ => none
 
 def ieq (a b : Int) : Bool := a == b
@@ -185,16 +185,19 @@ def toBox (n : Nat) (l : List Int) : Option (Box Int n) :=
 
 def isub (a b : Int) : Int := a - b
 
-/-- the bitfield over a 3-enumerator enum in 8-bit words, built along `route` -/
-def toBf (l : List Int) : Option (C10.Words 8) :=
+/-- the bitfield over an `n`-enumerator enum in 8-bit words, built along `route`; the three encoded membership bits
+are those of the enumerators `idx` (bf3: 0,1,2; bf9: 0,7,8 — two words) -/
+def toBf (n : Nat) (idx : List Nat) (l : List Int) : Option (C10.Words 8) :=
   match l with
   | [b0, b1, b2, route] =>
     if [b0, b1, b2].all (fun b => b == 0 || b == 1) then
-      let mem := (if b0 == 1 then [0] else []) ++ (if b1 == 1 then [1] else []) ++ (if b2 == 1 then [2] else [])
-      let co := (if b0 == 0 then [0] else []) ++ (if b1 == 0 then [1] else []) ++ (if b2 == 0 then [2] else [])
-      if route == 0 then some (C10.ofList 3 8 mem)
-      else if route == 1 then some (C10.not 3 (C10.ofList 3 8 co))
-      else if route == 2 then some (C10.not 3 (C10.not 3 (C10.ofList 3 8 mem)))
+      let bits := [b0, b1, b2]
+      let isIn := fun (e : Nat) => (List.range 3).any fun i => idx.getD i 0 == e && bits.getD i 0 == 1
+      let mem := (List.range n).filter isIn
+      let co := (List.range n).filter (fun e => !isIn e)
+      if route == 0 then some (C10.ofList n 8 mem)
+      else if route == 1 then some (C10.not n (C10.ofList n 8 co))
+      else if route == 2 then some (C10.not n (C10.not n (C10.ofList n 8 mem)))
       else none
     else none
   | _ => none
@@ -326,12 +329,14 @@ def relObs (ty : Ty) (a b : List Int) : Except String Obs := do
       let x : Sphere Int n := ⟨ao, ar⟩; let y : Sphere Int n := ⟨bo, br⟩
       pure { eq := Sphere.eq ieq x y, ne := Sphere.ne ieq x y }
     | _, _, _, _ => bad
-  | .bf3 =>
-    match toBf a, toBf b with
+  | .bf3 | .bf9 =>
+    let n := if ty == .bf3 then 3 else 9
+    let idx := if ty == .bf3 then [0, 1, 2] else [0, 7, 8]
+    match toBf n idx a, toBf n idx b with
     | some x, some y =>
       let hw : BitVec 8 → Nat := BitVec.toNat
       pure { eq := C10.eq x y, ne := C10.ne x y, hash := true, hashEq := C10.hash hcD hw x == C10.hash hcD hw y,
-             extra := s!" m={(C10.members 3 x).foldl (fun m i => m + 2 ^ i) 0},{(C10.members 3 y).foldl (fun m i => m + 2 ^ i) 0}" }
+             extra := s!" m={(C10.members n x).foldl (fun m i => m + 2 ^ i) 0},{(C10.members n y).foldl (fun m i => m + 2 ^ i) 0}" }
     | _, _ => bad
   | .grid | .grid1 | .grid3 =>
     let n := match ty with | .grid1 => 1 | .grid => 2 | _ => 3
